@@ -44,23 +44,27 @@ func genRun(j genJob) *trace.Scenario {
 		for i := 0; i < 3+j.a%7; i++ {
 			m.Hardware()
 		}
+		// the volume / envelope (output level for channel 3) is varied with the job, DAC always on: how loud a channel is,
+		// silent included, has no bearing on when its generator steps
+		env := uint8([]int{0xf0, 0x08, 0xf1, 0x0f, 0x10, 0xa3, 0x09, 0xf7}[(j.a+7*j.b+3*j.narrow)%8])
+		lvl := uint8([]int{0x20, 0x00, 0x40, 0x60}[j.a%4])
 		switch j.kind {
 		case "sq1":
 			m.M.Write(0xff10, 0x00)
-			m.M.Write(0xff12, 0xf0)
+			m.M.Write(0xff12, env)
 			m.M.Write(0xff13, uint8(j.a&0xff))
 			m.M.Write(0xff14, uint8(0x80|j.a>>8))
 		case "sq2":
-			m.M.Write(0xff17, 0xf0)
+			m.M.Write(0xff17, env)
 			m.M.Write(0xff18, uint8(j.a&0xff))
 			m.M.Write(0xff19, uint8(0x80|j.a>>8))
 		case "wave":
 			m.M.Write(0xff1a, 0x80)
-			m.M.Write(0xff1c, 0x20)
+			m.M.Write(0xff1c, lvl)
 			m.M.Write(0xff1d, uint8(j.a&0xff))
 			m.M.Write(0xff1e, uint8(0x80|j.a>>8))
 		case "noise":
-			m.M.Write(0xff21, 0xf0)
+			m.M.Write(0xff21, env)
 			m.M.Write(0xff22, uint8(j.b<<4|j.narrow<<3|j.a))
 			m.M.Write(0xff23, 0x80)
 		}
